@@ -56,6 +56,8 @@ type frame struct {
 	panic            any
 	symDecisions     map[ssa.Instruction]int
 	callpos          token.Pos
+	cur              ssa.Instruction // instruction being executed (for schedule traces)
+	serial           int             // activation number (for schedule traces)
 }
 
 func (fr *frame) get(key ssa.Value) value {
@@ -178,6 +180,7 @@ const (
 
 func (in *Interp) visitInstr(fr *frame, instr ssa.Instruction) continuation {
 	in.steps++
+	fr.cur = instr
 	if in.steps > in.cfg.MaxSteps {
 		in.abortPath(outcomeBound, fmt.Sprintf("step bound %d exceeded%s", in.cfg.MaxSteps, in.where(fr, instr.Pos())))
 	}
@@ -548,7 +551,8 @@ func (in *Interp) curFrame() *frame { return in.curG.top }
 
 func (in *Interp) callSSA(caller *frame, callpos token.Pos, fn *ssa.Function, args []value, env []value) value {
 	g := in.curG
-	fr := &frame{in: in, g: g, caller: caller, fn: fn, callpos: callpos}
+	in.frameSerial++
+	fr := &frame{in: in, g: g, caller: caller, fn: fn, callpos: callpos, serial: in.frameSerial}
 	if caller != nil && caller.fn == nil {
 		fr.caller = nil // synthetic init frame
 	}
